@@ -371,6 +371,7 @@ func c15World(t *testing.T, r *simcore.Run) any {
 			}
 			seen = seen[:0]
 			ctx, cancel := simsync.WithTimeout(context.Background(), 400*time.Millisecond)
+			roundStart := time.Now()
 			var off time.Duration
 			var err error
 			if wired {
@@ -444,8 +445,25 @@ func c15World(t *testing.T, r *simcore.Run) any {
 				continue
 			}
 			if err != nil {
-				r.Fail("C15", "round/error-with-paths", "%s: error although %d paths were offered", line, len(offered))
-				return
+				// with paths on offer a round fails only if not one client completed a measurement
+				// (then there is no value to report: C05 forbids an offset without an accepted
+				// response)
+				completed := 0
+				for i := range clients {
+					if len(filters[i].calls) > calls0[i] {
+						completed++
+					}
+				}
+				// (a result that becomes ready at the very instant of the deadline may lose against
+				// the cancellation: a round that lasted until its deadline may have lost them all)
+				if completed > 0 && time.Since(roundStart) < 400*time.Millisecond {
+					r.Fail("C15", "round/error-with-paths", "%s: error although %d paths were offered and %d client(s) completed a measurement", line, len(offered), completed)
+					return
+				}
+				errRounds++
+				r.Probe("round-without-a-completed-measurement")
+				hist = append(hist, line)
+				continue
 			}
 			if len(pathOf) > len(offered) {
 				r.Fail("C15", "round/more-clients-than-paths", "%s: %d clients took part, %d paths offered", line, len(pathOf), len(offered))
